@@ -228,6 +228,24 @@ def r2(ctx):
     sg_forms = ("[{a: h.count(a) for a in h} for h in subhaps]", "[dict(Counter(h)) for h in subhaps]", "[Counter(h) for h in subhaps]", "[dict(collections.Counter(h)) for h in subhaps]")
     ok = sg is not None and u(sg) in sg_forms and sh is not None and u(sh) == "[[haplotypes[i][pos] for i in thread_set] for pos in snps]"
     ctx.ob(pb.qual, "subinstance-genotype-is-parents-column", ok, pb.loc(), "a sub-instance's genotype is the allele count of the parent haplotypes' column" if ok else "subgeno/subhaps definitions changed")
+    # the columns of a sub-instance are addressed in the coordinates of the matrix the haplotypes belong to: block-local
+    # indices come from the block's matrix (the function's own matrix parameter), walked over the sub-matrix' positions --
+    # in the solver and in the write-back alike
+    for fq in (AL + ".phase_single_block", "whatshap.polyphase.reorder.integrate_sub_results"):
+        f_ = ctx.prog.functions.get(fq)
+        if f_ is None:
+            continue
+        sd = [v_ for _, v_ in util.assignments_to(f_.node, "snps") if isinstance(v_, ast.AST)]
+        mats = [p_ for p_ in util.params_of(f_.node) if "matrix" in p_]
+        okn = None
+        if len(sd) == 1 and isinstance(sd[0], ast.ListComp) and len(sd[0].generators) == 1 and isinstance(sd[0].elt, ast.Call) and isinstance(sd[0].elt.func, ast.Attribute) and sd[0].elt.func.attr == "globalToLocal" and mats:
+            conv = u(sd[0].elt.func.value)
+            it_ = sd[0].generators[0].iter
+            src = u(it_.func.value) if isinstance(it_, ast.Call) and isinstance(it_.func, ast.Attribute) and it_.func.attr == "getPositions" else None
+            okn = conv == mats[0] and src is not None and src != conv and u(sd[0].elt.args[0]) == u(sd[0].generators[0].target)
+            ctx.ob(f_.qual, "sub-instance-columns-in-block-coordinates", okn, f_.loc(util.stmt_of(sd[0])), "snps = block-local indices (by %s) of the sub-matrix' positions" % mats[0] if okn else "snps converts positions with `%s` while walking `%s`: the indices are not those of the block whose haplotypes are read and written back (the first columns of the block are used instead of the collapsed sites)" % (conv, src))
+        else:
+            ctx.ob(f_.qual, "sub-instance-columns-in-block-coordinates", None, f_.loc(), "cannot read how snps is computed")
     # genotype dictionaries = allele counts of the input genotype
     cg = ctx.func("whatshap.polyphase.create_genotype_list")
     inner = [n for n in walk_function(cg.node) if isinstance(n, ast.For) and isinstance(n.iter, ast.Call) and isinstance(n.iter.func, ast.Attribute) and n.iter.func.attr == "as_vector" and isinstance(n.target, ast.Name)]
@@ -366,6 +384,13 @@ def r4(ctx):
     w = [c for c in ctx.prog.calls_in(run.node) if u(c.func) == "PhasedVcfWriter"]
     kw = {k.arg: u(k.value) for k in w[0].keywords} if w else {}
     ok = (None if not w else (len(w) == 1 and kw.get("ploidy") == "ploidy" and kw.get("mav") == "mav" and kw.get("tag") == "tag"))
+    # reader and writer agree on --only-snvs: the writer puts the phase of position p on the first record at p that it does not
+    # skip; if it does not skip the indels the reader left out, an indel record receives the SNV's phase
+    rd = [c for c in ctx.prog.calls_in(run.node) if u(c.func) == "VcfReader"]
+    rkw = {k.arg: u(k.value) for c in rd for k in c.keywords}
+    if w and "only_snvs" in rkw:
+        oks = kw.get("only_snvs") == rkw["only_snvs"]
+        ctx.ob(run.qual, "writer-skips-what-the-reader-skipped", oks, run.loc(w[0]), "PhasedVcfWriter gets only_snvs=%s like the reader" % rkw["only_snvs"] if oks else "the reader is restricted by only_snvs=%s but the writer is not: with --only-snvs an indel that shares its position with an SNV receives the SNV's phase and genotype" % rkw["only_snvs"])
     ctx.ob(run.qual, "writer-configured-with-ploidy-and-mav", ok, run.loc(w[0]) if w else run.loc(), "the shared writer is created with this run's ploidy, mav and tag" if ok else "PhasedVcfWriter is created with %s" % kw)
 
 
